@@ -29,11 +29,14 @@ impl<const B: Word> EstimatedLog2 for Repr<B> {
         } else {
             B.log2_bounds()
         };
+        // the conversion of the exponent, the product and the sum each round to nearest:
+        // step outwards after every one of them, so that each intermediate value is a bound
         let e = self.exponent as f32;
+        let (e_lb, e_ub) = (next_down(e), next_up(e));
         let (lb, ub) = if self.exponent >= 0 {
-            (logs_lb + e * logb_lb, logs_ub + e * logb_ub)
+            (logs_lb + next_down(e_lb * logb_lb), logs_ub + next_up(e_ub * logb_ub))
         } else {
-            (logs_lb + e * logb_ub, logs_ub + e * logb_lb)
+            (logs_lb + next_down(e_lb * logb_ub), logs_ub + next_up(e_ub * logb_lb))
         };
         (next_down(lb), next_up(ub))
     }
